@@ -453,3 +453,31 @@ def ed5(P, C, floor=1):
              "the handler at %s can complete normally: a failure of the writer is absorbed and the function goes on to report success" % f.loc(bad[0]))
     if n < floor:
         raise core.AnalysisBroken("ED-5: no catch handler at all on the write path (expected the buffer-releasing handler of write_fits_mem)")
+
+
+# --------------------------------------------------------------------------
+# ENV-1: the library never changes the floating-point environment
+# --------------------------------------------------------------------------
+FPENV_CALLS = ("_mm_setcsr", "__builtin_ia32_ldmxcsr", "fesetenv", "fesetround", "feholdexcept", "feupdateenv", "fesetexceptflag",
+               "_controlfp", "__control87_2", "_MM_SET_FLUSH_ZERO_MODE", "_MM_SET_DENORMALS_ZERO_MODE", "_MM_SET_ROUNDING_MODE")
+
+
+def env1(P, C):
+    C.rule("ENV-1", "no function of the library writes the floating-point control state (MXCSR flush-to-zero / denormals-are-zero bits, rounding "
+           "mode, fenv): every comparison and every evaluation later on the same thread would silently change meaning (lookup of denormal "
+           "coordinates, bit-identity between paths)", floor=1)
+    hits = []
+    nfun = 0
+    for f in P.functions.values():
+        if f.unit.startswith("selftest"):
+            continue
+        nfun += 1
+        for i, cal in f.calls():
+            if cal and (cal["name"] in FPENV_CALLS or (f.call_macro(i) or "") in FPENV_CALLS):
+                hits.append((f, i, f.call_macro(i) or cal["name"]))
+        for i in f.walk():
+            if f.k(i) == "GCCAsmStmt" and any(s_ in f.render(i).lower() for s_ in ("ldmxcsr", "fldcw")):
+                hits.append((f, i, "inline asm"))
+    C.ob("ENV-1", "library", "fp-environment-untouched", not hits, hits[0][0].loc(hits[0][1]) if hits else "include/photospline",
+         ("%d functions analysed, none writes the floating-point control state" % nfun) if not hits else
+         "%s in %s changes the floating-point control state and nothing restores it" % (hits[0][2], hits[0][0].name))
